@@ -239,6 +239,74 @@ fn g_lie(src: &mut Src, obs: &mut Obs) -> CaseResult {
     Ok(())
 }
 
+/// A well-formed request with ONE unknown member somewhere (a text-keyed nested map, any
+/// position) whose VALUE is malformed or unusual at the encoding level: every head inside the
+/// unknown value in turn gets a reserved additional-information value, a wider-than-needed
+/// encoding, the indefinite form, or a lying length. The decoder only skips this value, a path
+/// with its own error handling; whatever it decides, it must return one of the three statuses.
+pub fn unknown_fault_messages(src: &mut Src) -> Option<(u8, Vec<(String, Vec<u8>)>)> {
+    use crate::mutate::Step;
+    use crate::refcbor::HeadFault;
+    let cmd = PARAM_CMDS[src.below(PARAM_CMDS.len())];
+    let mut info = Info::default();
+    let mut model = refcbor::canonicalize(&gen_for(cmd, src, &mut info));
+    // hosts: maps below the top level (their keys are text or small integers)
+    let hosts: Vec<mutate::Path> = mutate::maps(&model).into_iter().filter(|p| !p.is_empty()).collect();
+    if hosts.is_empty() {
+        return None;
+    }
+    let hp = hosts[src.below(hosts.len())].clone();
+    let depth = *src.pick(&[0usize, 1, 2, 3]);
+    let val = if src.chance(1, 4) { mutate::realistic_unknown(src).1 } else { mutate::any_value(src, depth) };
+    let key = Value::text("zz-unknown");
+    if let Some(Value::Map(m)) = mutate::get_mut(&mut model, &hp) {
+        let pos = src.below(m.len() + 1);
+        m.insert(pos, (key.clone(), val.clone()));
+    }
+    let mut vp = hp.clone();
+    vp.push(Step::Key(key));
+    let start = mutate::head_index_of(&model, &vp)?;
+    let n_heads = refcbor::heads(&val).len();
+    let mut out = vec![];
+    for idx in start..start + n_heads {
+        let mut faults: Vec<HeadFault> = (28u8..=31).map(|ai| HeadFault::Reserved { idx, ai }).collect();
+        for width in [1u8, 2, 4, 8] {
+            faults.push(HeadFault::Wider { idx, width });
+        }
+        faults.push(HeadFault::Indefinite { idx });
+        faults.push(HeadFault::Lie { idx, arg: 0xFFFF });
+        faults.push(HeadFault::Lie { idx, arg: u64::MAX });
+        for f in faults {
+            let (body, applied) = refcbor::encode_fault(&model, f);
+            if !applied {
+                continue;
+            }
+            let mut msg = vec![cmd];
+            msg.extend_from_slice(&body);
+            msg.truncate(MAX_MSG);
+            let name = format!("{:?}", f);
+            out.push((name.split(' ').next().unwrap_or("").to_string(), msg));
+        }
+    }
+    Some((cmd, out))
+}
+
+fn g_unknown_fault(src: &mut Src, obs: &mut Obs) -> CaseResult {
+    let Some((cmd, msgs)) = unknown_fault_messages(src) else {
+        obs.label("unknown-fault:no-nested-map");
+        return Ok(());
+    };
+    obs.label("unknown-fault");
+    obs.label(cmd_name(cmd));
+    for (name, msg) in msgs {
+        obs.sub(&format!("unknown-fault:{}", name), &[&msg]);
+        let st = check_input(&msg, obs)?;
+        label_outcome(obs, st);
+    }
+    Ok(())
+}
+pub const G_UNKNOWN_FAULT: Gen = Gen { name: "c04_unknown_fault", f: g_unknown_fault };
+
 /// byte offset just after the head with pre-order index `idx` in the shortest-form encoding
 fn head_end_offset(v: &Value, idx: usize) -> usize {
     // encode with the head made indefinite is not suitable; instead encode a marker: re-encode with
@@ -300,10 +368,10 @@ pub const G_TYPES: Gen = Gen { name: "c04_types", f: g_types };
 pub const G_CONCRETE: Gen = Gen { name: "c04_concrete", f: g_concrete };
 
 pub fn gens() -> Vec<Gen> {
-    vec![G_SHORT, G_MUTATE, G_DEEP, G_LIE, G_TYPES, G_CONCRETE]
+    vec![G_SHORT, G_MUTATE, G_DEEP, G_LIE, G_UNKNOWN_FAULT, G_TYPES, G_CONCRETE]
 }
 
-pub const RULE: &str = "(a) exhaustive: every byte string of length 0..3 (16 843 009 inputs) and, in the thorough tier, every 4-byte input whose first byte is a parameter-bearing command (quick: a 2^21 stride sample of them); (b) proptest: a valid message for a random command from the C01 generator, then 1-3 mutations from {grow a string/list/map across capacity boundaries up to the 7609-byte budget, push an integer past its range (255..2^64-1, negative), replace a node by another type, wrap a node in up to 7500 nesting levels, duplicate/drop a map entry, corrupt UTF-8, insert an unknown member with deep nesting, re-encode a head non-minimally or indefinite, byte flip/insert/delete/splice/truncate/special byte}; (c') every container/string head of a valid message in turn announcing 2^16-1 / 2^31-1 / 2^32-1 / n+1000 items while the data is unchanged or cut right after the head; (c) nesting depth ladders up to 7590 levels inside an unknown option, truncated at 7609 bytes; (d) mutated encodings of every stand-alone decodable public type through cbor_deserialize::<T>. Oracle: the call returns (a panic is caught and is a violation; an abort/stack overflow kills the worker and is reproduced in journal mode), an error status is one of 0x01/0x12/0x14, and decoding the same bytes at another address/alignment gives an equal result. Built with debug assertions and overflow checks; decoding runs on an 8 MiB stack. Non-trivial: first byte is a parameter-bearing command and the payload starts with a map header followed by at least one byte; distinct by input bytes.";
+pub const RULE: &str = "(a) exhaustive: every byte string of length 0..3 (16 843 009 inputs) and, in the thorough tier, every 4-byte input whose first byte is a parameter-bearing command (quick: a 2^21 stride sample of them); (b) proptest: a valid message for a random command from the C01 generator, then 1-3 mutations from {grow a string/list/map across capacity boundaries up to the 7609-byte budget, push an integer past its range (255..2^64-1, negative), replace a node by another type, wrap a node in up to 7500 nesting levels, duplicate/drop a map entry, corrupt UTF-8, insert an unknown member with deep nesting, re-encode a head non-minimally or indefinite, byte flip/insert/delete/splice/truncate/special byte}; (c') every container/string head of a valid message in turn announcing 2^16-1 / 2^31-1 / 2^32-1 / n+1000 items while the data is unchanged or cut right after the head; (c'') a well-formed request with one unknown member in a nested map whose value has, head by head, a reserved additional-information value / a wider-than-needed head / the indefinite form / a lying length (the decoder's value skipper has its own error paths); (c) nesting depth ladders up to 7590 levels inside an unknown option, truncated at 7609 bytes; (d) mutated encodings of every stand-alone decodable public type through cbor_deserialize::<T>. Oracle: the call returns (a panic is caught and is a violation; an abort/stack overflow kills the worker and is reproduced in journal mode), an error status is one of 0x01/0x12/0x14, and decoding the same bytes at another address/alignment gives an equal result. Built with debug assertions and overflow checks; decoding runs on an 8 MiB stack. Non-trivial: first byte is a parameter-bearing command and the payload starts with a map header followed by at least one byte; distinct by input bytes.";
 pub const ASSUMPTIONS: &[&str] = &[
     "non-termination is only observable as a watchdog hit (reported as inconclusive, exit 2)",
     "stack exhaustion is judged against an 8 MiB stack",
@@ -343,6 +411,7 @@ pub fn run(ctx: &mut Ctx) {
         full.extend(std::iter::repeat(crate::run::bit(true)).take(nbits));
         ctx.random(&G_LIE, &full, ctx.t(6, 200), 900);
         ctx.random(&G_LIE, &[idx(ci, PARAM_CMDS.len())], ctx.t(30, 2_000), 900);
+        ctx.random(&G_UNKNOWN_FAULT, &[idx(ci, PARAM_CMDS.len())], ctx.t(600, 20_000), 900);
     }
     for (i, t) in types::ALL.iter().enumerate() {
         if t.available() && t.decodable() {
@@ -353,7 +422,7 @@ pub fn run(ctx: &mut Ctx) {
         "short:len0", "short:len1", "short:len2", "short:len3", "short:len4", "outcome:accepted", "outcome:0x01",
         "outcome:0x12", "outcome:0x14", "mut:grow-bytes", "mut:grow-text", "mut:grow-array", "mut:int-range",
         "mut:type-replace", "mut:nest:>64", "mut:dup-entry", "mut:corrupt-utf8", "mut:unknown-deep:>64", "mut:head:Wider",
-        "mut:head:Indefinite", "mut:head:Lie", "mut:byte:flip", "mut:byte:insert", "mut:byte:delete", "mut:byte:splice", "mut:byte:truncate", "mut:byte:append",
+        "mut:head:Indefinite", "mut:head:Lie", "mut:head:Reserved", "unknown-fault:Reserved", "unknown-fault:Wider", "mut:byte:flip", "mut:byte:insert", "mut:byte:delete", "mut:byte:splice", "mut:byte:truncate", "mut:byte:append",
         "length-lie", "lie:major2", "lie:major3", "lie:major4", "lie:major5", "deep:>64", "deep:>=7000", "deep:truncated-at-7609", "len>1024",
     ]);
 }
